@@ -30,7 +30,7 @@ from rv import gen
 from rv.props import C15_ops as ops
 
 PLAN = {
-    "quick": {"cases": 5000, "hashseeds": 3, "shards": 5, "timeout": 420, "min_nontrivial": 2000},
+    "quick": {"cases": 10000, "hashseeds": 3, "shards": 5, "timeout": 420, "min_nontrivial": 4000},
     "thorough": {"cases": 20000, "hashseeds": 8, "shards": 2, "timeout": 3000, "min_nontrivial": 9000},
 }
 _SCALE = float(os.environ.get("RV_C15_SCALE", "1") or 1)        # development aid: shrink / stretch the case counts
